@@ -100,7 +100,7 @@ BUS_PROPS = {
     'C02': dict(oracle=lambda F, w: oracle.c02(F),
                 profiles=[('clean', 1), ('single', 2), ('multi', 3), ('multi_fwd', 2), ('backlog', 4), ('gap', 2), ('stalls', 2)]),
     'C03': dict(oracle=lambda F, w: oracle.c03(F),
-                profiles=[('clean', 2), ('single', 2), ('nested', 3), ('multi', 3), ('multi_fwd', 2), ('errors', 2), ('deep', 1), ('backlog', 1), ('await_any', 2)]),
+                profiles=[('clean', 2), ('single', 2), ('nested', 3), ('multi', 3), ('multi_fwd', 2), ('errors', 2), ('deep', 1), ('backlog', 1), ('await_any', 2), ('errors_parallel', 3), ('parallel', 1)]),
     'C04': dict(oracle=lambda F, w: oracle.c04(F),
                 profiles=[('clean', 3), ('single', 2), ('gap', 3), ('gap_fwd', 2), ('nested', 3), ('multi', 2), ('deep', 1), ('await_any', 3), ('await_any_clean', 2), ('timeouts', 3)]),
     'C05': dict(oracle=lambda F, w: oracle.c05(F),
